@@ -30,7 +30,9 @@ REQUIRED_REACH = [
 FILLS = [0, -3.25, 7, 2.5]
 
 
-def gen_ctor(rng, axn, layout=None, p_none=0.4):
+def gen_ctor(rng, axn, layout=None, p_none=0.4, partial_list=False):
+    """Constructor spellings.  A `periodic` list that leaves some axis unnamed is drawn only by C02 (which owns
+    that part of the resolution statement and lists the open finding about it); elsewhere lists name every axis."""
     r = rng.random()
     if r < 0.25:
         periodic = True
@@ -38,8 +40,10 @@ def gen_ctor(rng, axn, layout=None, p_none=0.4):
         periodic = False
     elif r < 0.75:
         periodic = {a: rng.random() < 0.5 for a in axn}
-    else:
+    elif partial_list:
         periodic = rng.sample(axn, rng.randint(0, len(axn)))
+    else:
+        periodic = rng.sample(axn, len(axn))
     ctor = {
         "periodic": periodic,
         "boundary": gen.random_spelling(rng, axn, gen.RULES, p_none=p_none),
